@@ -10,6 +10,13 @@ def proof_part(run, prop):
     ok, log = vlib.translator_run()
     if not ok:
         run.notes.append("translator reported: " + log[-500:])
+    try:
+        import json, os
+        probed = json.load(open(os.path.join(vlib.CACHE, "gen", "layouts.json"))).get("probed", [])
+        if probed:
+            run.coverage["sequence_shapes_observed_not_translated"] = probed
+    except Exception:
+        pass
     res = vlib.property_theorems(prop)
     n = len(res["theorems"]) + len(res["examples"])
     run.obligations += n
